@@ -7,7 +7,8 @@ From Coq Require Import String.
 From Coq Require Import List NArith Arith.
 Import ListNotations.
 From YP Require Import Base.Str Lang.Ast Lang.Lexer Lang.Cst Lang.Parser Lang.ParserSound Lang.Unquote Lang.Front
-  Lang.ParserMono Lang.ParserComplete Lang.ParserCanon Comp.IR Comp.CompileClause Lang.FrontCompile.
+  Lang.ParserMono Lang.ParserComplete Lang.ParserCanon Lang.ParserFuel Lang.ParserNorm Lang.FrontSpec
+  Comp.IR Comp.CompileClause Lang.FrontCompile.
 
 (* The scan of every token rule computes exactly the longest prefix in the rule's language
    (rdef_lang is the specification of the four kinds of rule, rule_def the table of prolog.g4). *)
@@ -77,16 +78,55 @@ Theorem C10_front_whole_input : forall s prog, front s = Some prog ->
 Proof. exact front_whole_input. Qed.
 Print Assumptions C10_front_whole_input.
 
-(* PARSE_COMPLETE (fuel form).  The recogniser accepts EVERY sentence of prolog.g4: for any derivation tree p of the
-   grammar (Lang/Cst.v: one constructor per alternative, so also the ambiguous readings), parsing its yield succeeds for
-   every depth fuel from some point on (`ev f x` = f n = Some x for all n >= some n0), and returns the canonical tree of
-   the sentence.  [Full statement `forall p, parse (yield p) <> None` with the fixed fuel 5 * #tokens + 10 that `parse`
-   supplies: not proved -- the explicit fuel bound is missing; it is exercised by the differential run, where a
-   grammar-derived sentence that the model refuses is reported.] *)
+(* PARSE_COMPLETE.  The recogniser accepts EVERY sentence of prolog.g4: for any derivation tree p of the grammar
+   (Lang/Cst.v: one constructor per alternative, so also the readings that precedence does not select), `parse`
+   -- with the depth fuel 5 * #tokens + 10 it supplies itself -- accepts the yield of p and returns the canonical
+   tree of that sentence. *)
+Theorem C10_parse_complete : forall p, parse (yield p) = Some (canon_program p).
+Proof. exact parse_complete. Qed.
+Print Assumptions C10_parse_complete.
+
+(* the same for all sufficiently large depth fuels (`ev f x` = f n = Some x for all n from some n0 on) *)
 Theorem C10_parse_complete_fuel : forall p,
   ev (fun n => p_program (length (yield p)) n (yield p)) (canon_program p).
 Proof. exact parse_complete_fuel. Qed.
 Print Assumptions C10_parse_complete_fuel.
+
+(* PARSE_SPEC: the complete specification of the parser as a recogniser of the grammar's language.
+   It returns c exactly when c is the canonical derivation tree whose leaves are the given tokens ... *)
+Theorem C10_parse_spec : forall ts c, parse ts = Some c <-> (canonical c = true /\ yield c = map norm ts).
+Proof. exact parse_spec. Qed.
+Print Assumptions C10_parse_spec.
+
+(* ... and it rejects exactly when NO derivation tree of the grammar has these leaves *)
+Theorem C10_parse_none_spec : forall ts, parse ts = None <-> (forall p : cprogram, yield p <> map norm ts).
+Proof. exact parse_none_spec. Qed.
+Print Assumptions C10_parse_none_spec.
+
+(* UNAMBIGUOUS: the tree returned is the only canonical derivation tree of the token sequence *)
+Theorem C10_parse_unambiguous : forall ts c, parse ts = Some c ->
+  forall c', canonical c' = true -> yield c' = map norm ts -> c' = c.
+Proof. exact parse_unique. Qed.
+Print Assumptions C10_parse_unambiguous.
+
+(* At the level of texts.  `sentence s`: s has a maximal-munch tokenisation whose tokens are the leaves of some
+   derivation tree.  A text that is not a sentence is refused; a sentence is refused only by the visitor. *)
+Theorem C10_front_rejects_non_sentences : forall s, ~ sentence s -> front s = None.
+Proof. exact front_rejects_non_sentences. Qed.
+Print Assumptions C10_front_rejects_non_sentences.
+
+Theorem C10_front_spec : forall s prog, front s = Some prog <->
+  exists items cst k, lexes s items [] /\ canonical cst = true /\ yield cst = map norm (filter keep items) /\
+                      v_program cst 0 = Some (prog, k).
+Proof. exact front_spec. Qed.
+Print Assumptions C10_front_spec.
+
+Theorem C10_front_none_spec : forall s, front s = None <->
+  (~ sentence s) \/
+  (exists items cst, lexes s items [] /\ canonical cst = true /\ yield cst = map norm (filter keep items) /\
+                     v_program cst 0 = None).
+Proof. exact front_none_spec. Qed.
+Print Assumptions C10_front_none_spec.
 
 (* every derivation tree has a canonical one (the shape ANTLR's precedence rules select) with the same yield *)
 Theorem C10_canonical_tree_exists : forall p, canonical (canon_program p) = true /\ yield (canon_program p) = yield p.
